@@ -19,12 +19,7 @@ import bpdrive as B  # noqa: E402
 
 # Defects of the unchanged code that the oracle rediscovers and that are reported to the coordinator but
 # not (yet) listed in known_findings.json: they are printed as PENDING-FINDING and do not fail the run.
-PENDING_FINDINGS = {
-    'C10/forward-route-not-taken/extension-block-number-collides-with-number-given-to-inserted-block':
-        'a bundle routed to forward (TX route and CL present) is not handed to the CL when it carries an extension '
-        'block whose number equals the number this agent gave to the Previous Node / Bundle Age block of an earlier '
-        'forwarded bundle (block numbers stick to the scapy class-level overloaded_fields dict; add_block then raises)',
-}
+PENDING_FINDINGS = {}
 
 NODE = 'dtn://n0/'
 EIDS = ['dtn://n0/', 'dtn://n0/svc', 'dtn://n1/', 'dtn://n1/a', 'dtn://n2/', 'dtn://n2/b', 'dtn://n3/x/y',
@@ -216,8 +211,6 @@ def oracle_c10(case, raw):
             want = B.expect_forward(case, spec)
             if want is True and not fwds:
                 sig = 'C10/forward-route-not-taken'
-                if spec.get('prep'):
-                    sig += '/extension-block-number-collides-with-number-given-to-inserted-block'
                 bad.append((sig, where + ': first matching route says forward, a TX route with CL exists, nothing handed to the CL'))
             if want is False and fwds:
                 bad.append(('C10/forwarded-without-usable-tx-route', where))
@@ -270,12 +263,13 @@ def directed_cases():
                       hist=[bd(dest='dtn://n1/a', seq=1, payload_hex=big), bd(dest='dtn://n1/a', seq=1, payload_hex=big),
                             bd(dest='dtn://n2/b', seq=2), bd(dest='dtn://n2/b', seq=3, flags=ALL_REQ | B.FLAG_NO_FRAGMENT),
                             bd(dest='dtn://n1/a', seq=4, time=0, payload_hex=big), bd(dest='dtn://n3/x/y', seq=5, time=0)]))
-    # block numbers handed out by _do_fwd stick: a later bundle carrying that number cannot be forwarded
+    # regression (fixed in /repo): block numbers handed out by _do_fwd used to stick to the scapy class-level
+    # overloaded_fields dict, so a later bundle carrying such a number could not be forwarded
     import cbor2
     hop = cbor2.dumps([30, 3]).hex()
     cases.append(dict(node_id=NODE, rx_routes=[['.*', 'forward']], tx_routes=[dict(pattern='.*', mtu=None)], now_ms=800000000000,
-                      hist=[bd(dest='dtn://n2/', seq=1), bd(dest='dtn://n2/', seq=2, blocks=[dict(type=10, num=2, data_hex=hop)], prep=1),
-                            bd(dest='dtn://n2/', seq=3, blocks=[dict(type=10, num=3, data_hex=hop)], prep=2),
+                      hist=[bd(dest='dtn://n2/', seq=1), bd(dest='dtn://n2/', seq=2, blocks=[dict(type=10, num=2, data_hex=hop)]),
+                            bd(dest='dtn://n2/', seq=3, blocks=[dict(type=10, num=3, data_hex=hop)]),
                             bd(dest='dtn://n2/', seq=4, blocks=[dict(type=10, num=4, data_hex=hop)])]))
     return cases
 
@@ -324,6 +318,18 @@ def main():
     mark = time.time()
     (tr_ok, tr_err) = chk.translate_ok('reporttable')
     chk.obligation('translator:reporttable', tr_ok, tr_err)
+    # chain orders: what the translator read from the source, stably sorted, against the live agent's chains
+    (ch_ok, ch_err) = chk.translate_ok('chain')
+    if ch_ok:
+        sys.path.insert(0, os.path.join(os.path.dirname(os.path.abspath(__file__)), '..', 'translate'))
+        from targets import chain as chain_target
+        steps = chain_target.collect(env.REPO_SRC)
+        live = B.BpDriver(node_id=NODE, capture_order=None).chains()
+        for which in ('rx', 'tx'):
+            read = sorted([(order, name) for (_mod, ch, order, name, _meth) in steps if ch == which], key=lambda item: item[0])
+            if [(float(order), name) for (order, name) in read] != [(float(order), name) for (order, name) in live[which]]:
+                (ch_ok, ch_err) = (False, '%s chain read from the source %r differs from the live agent %r' % (which, read, live[which]))
+    chk.obligation('translator:chain', ch_ok, ch_err)
 
     count = 240 if chk.quick() else 30000
     length = 8
